@@ -130,20 +130,17 @@ Proof.
     - rewrite map_app, !map_map. cbn [cw fst]. change (fun x : Z * page => fst x) with (@fst Z page). rewrite Hwpids, Hfpids. exact Hnd.
     - rewrite <- map_app. change (id, Some pg) with (cw (id, pg)). apply in_map. exact Hin. }
   set (h' := decode_header (encode_header h)).
-  assert (Hh' : h' = {| h_magic := h_magic h; h_version := h_version h; h_pageSize := h_pageSize h;
-     h_maxSize := h_maxSize h; h_flags := h_flags h; h_root := h_root h; h_txid := h_txid h;
-     h_freelist := h_freelist h; h_wal := h_wal h; h_dataEnd := h_dataEnd h;
-     h_metaEnd := h_metaEnd h; h_metaTotal := h_metaTotal h; h_checksum := h_checksum h' |}).
-  { unfold h'. rewrite (decode_encode_header h Hok). reflexivity. }
+  destruct (header_roundtrip h Hok) as (_ & _ & _ & Hmax' & _ & Hroot' & Htx' & Hfl' & Hwal' & Hde' & Hme' & Hmt').
+  fold h' in Hmax', Hroot', Htx', Hfl', Hwal', Hde', Hme', Hmt'.
   assert (Hrw : read_wal fuel d1 (h_wal h') = Some (walIds, mapping)).
-  { rewrite Hh'. cbn [h_wal]. rewrite Hwal. destruct walIds as [|w0 wr] eqn:Ew.
+  { rewrite Hwal', Hwal. destruct walIds as [|w0 wr] eqn:Ew.
     - rewrite (Hw0 eq_refl). cbn [hd]. destruct fuel; reflexivity.
     - rewrite <- Ew in *. apply (wal_pages_roundtrip ps walIds mapping wp d1 fuel); try assumption.
       + rewrite Ew. discriminate.
       + eapply Forall_impl; [|exact HidsW]. intros a [Ha _]. lia.
       + intros id pg Hin. apply Hmeta. apply in_or_app. left. exact Hin. }
   assert (Hrf : read_freelist fuel d1 (h_freelist h') = Some (flIds, map (pair true) metaL ++ map (pair false) dataL)).
-  { rewrite Hh'. cbn [h_freelist]. rewrite Hfl. destruct flIds as [|f0 fr] eqn:Ef.
+  { rewrite Hfl', Hfl. destruct flIds as [|f0 fr] eqn:Ef.
     - destruct (Hf0 eq_refl) as [-> ->]. cbn [hd map app]. destruct fuel; reflexivity.
     - rewrite <- Ef in *. apply (freelist_pages_roundtrip ps flIds metaL dataL fp d1 fuel); try assumption.
       + rewrite Ef. discriminate.
@@ -162,13 +159,42 @@ Proof.
     injection Ech as <- _. reflexivity. }
   (* sync, header, sync, return *)
   assert (Hvalid : hdr_of (Some (encode_header h)) = Some (nxt_txid (txid m), h')).
-  { unfold hdr_of. rewrite (finalized_header_valid h Hok Hmag Hver). fold h'. rewrite Hh' at 1. cbn [h_txid]. rewrite Htx. reflexivity. }
+  { unfold hdr_of. rewrite (finalized_header_valid h Hok Hmag Hver). fold h'. rewrite Htx', Htx. reflexivity. }
   unfold mon_run, run, step. cbn [dd pend act txid cst cfp infl].
   fold P0. fold d1.
   rewrite Z.eqb_refl. rewrite Hvalid, Z.eqb_refl. fold (chase_full fuel). rewrite Ech.
   cbn [dd pend act txid cst cfp infl].
   eexists. split; [reflexivity|]. cbn [act txid infl pend cst fst].
-  rewrite Hst, Hh'. cbn. repeat split; reflexivity.
+  rewrite Hst. cbn [r_wal r_walpages r_flpages r_metaFree r_dataFree r_root r_txid r_dataEnd r_metaEnd r_metaTotal r_maxSize].
+  repeat split; assumption.
+Qed.
+
+
+Lemma mon_run_app : forall a (m : mon) b m', mrun m (a ++ b) = Some m' -> exists m1, mrun m a = Some m1 /\ mrun m1 b = Some m'.
+Proof.
+  induction a as [|e a IH]; intros m b m' H; cbn [app] in H.
+  - exists m. split; [reflexivity | exact H].
+  - unfold mon_run in *. cbn [run] in *. destruct (step cell header view hdr_of (chase_full fuel) nxt_txid m e) as [m2|]; [|discriminate].
+    apply IH. exact H.
+Qed.
+
+(* until Commit returns, the protected state is the one of the previous commit *)
+Lemma run_keeps_cst : forall es (m m1 : mon), Forall (fun e => e <> CommitOk) es -> mrun m es = Some m1 ->
+  cst m1 = cst m /\ act m1 = act m /\ txid m1 = txid m.
+Proof.
+  induction es as [|e es IH]; intros m m1 Hne H; unfold mon_run in *; cbn [run] in H.
+  - injection H as <-. auto.
+  - inversion Hne as [|? ? He Hne']; subst.
+    destruct (step cell header view hdr_of (chase_full fuel) nxt_txid m e) as [m2|] eqn:Es; [|discriminate].
+    destruct (IH m2 m1 Hne' H) as (H1 & H2 & H3). rewrite H1, H2, H3. clear - Es He.
+    destruct e as [p c| |]; [| |contradiction]; cbn [step] in Es.
+    + destruct (p =? slotp (negb (act m))).
+      * destruct (infl m); [discriminate|]. destruct (pend m); [|discriminate]. destruct (hdr_of c) as [[t h0]|]; [|discriminate].
+        destruct (t =? nxt_txid (txid m)); [|discriminate]. destruct (chase_full fuel (dd m) h0) as [[st fp]|]; [|discriminate].
+        injection Es as <-. auto.
+      * destruct (p =? slotp (act m)); [discriminate|]. destruct (p <? 2); [discriminate|]. destruct (infl m); [discriminate|].
+        destruct (existsb (Z.eqb p) (cfp m)); [discriminate|]. injection Es as <-. auto.
+    + injection Es as <-. auto.
 Qed.
 
 End Commit.
